@@ -2,6 +2,7 @@
 import ast
 
 from engine.arrays import Arr
+from engine.index import own_nodes
 from engine.report import AnalysisError
 
 from . import arrayrules as R
@@ -41,6 +42,51 @@ def check_validate(ctx, idx, rule="C05.c"):
                 # the loop must be reached whenever there are >= 2 arrays: early returns are allowed only for len <= 1
                 ok = True
                 why = "loop over %s compares each shape with the reference and raises MixedArrayShapes on a difference" % K.src(it)
+            elif diff and raises:
+                # form B: a difference is recorded in the loop (appended / stored) and MixedArrayShapes is raised after the
+                # loop exactly when something was recorded
+                recorded = set()
+                for m in body:
+                    if m.kind == "call" and isinstance(m.ast.func, ast.Attribute) and m.ast.func.attr in ("append", "add") and isinstance(m.ast.func.value, ast.Name):
+                        if all(d_ is m or cfg.must_pass_through(d_, head, {m}) for d_ in diff):
+                            recorded.add(m.ast.func.value.id)
+                    if m.kind == "store" and m.meta.get("name") and all(d_ is m or cfg.must_pass_through(d_, head, {m}) for d_ in diff):
+                        recorded.add(m.meta["name"])
+                for t2 in cfg.find("test"):
+                    if t2 in body or not any(cfg.dominates(t2, rz) for rz in raises):
+                        continue
+                    names2 = K.dep_names(fi, t2.ast)
+                    if not (names2 & recorded):
+                        continue
+                    neg = isinstance(t2.ast, ast.Compare) and isinstance(t2.ast.ops[0], (ast.Is, ast.Eq)) or (isinstance(t2.ast, ast.UnaryOp) and isinstance(t2.ast.op, ast.Not))
+                    side = [m for m, l in t2.succ if l == ("false" if neg else "true")]
+                    if side and all(cfg.must_pass_through(m, cfg.exit, set(raises)) for m in side) and cfg.reachable([head]).__contains__(t2):
+                        ok = True
+                        why = "loop over %s records every shape that differs from the reference; MixedArrayShapes is raised afterwards whenever one was recorded" % K.src(it)
+    if not ok and raises:
+        # form C: the differing shapes are collected by a filtered comprehension over the whole list, and MixedArrayShapes is
+        # raised afterwards exactly when the collection is not empty
+        for n in own_nodes(fi.node):
+            if not (isinstance(n, ast.Assign) and len(n.targets) == 1 and isinstance(n.targets[0], ast.Name) and isinstance(n.value, (ast.ListComp, ast.GeneratorExp)) and len(n.value.generators) == 1):
+                continue
+            g = n.value.generators[0]
+            whole = (isinstance(g.iter, ast.Name) and g.iter.id == arg) or (isinstance(g.iter, ast.Subscript) and isinstance(g.iter.value, ast.Name) and g.iter.value.id == arg and isinstance(g.iter.slice, ast.Slice) and g.iter.slice.upper is None and (g.iter.slice.lower is None or (isinstance(g.iter.slice.lower, ast.Constant) and g.iter.slice.lower.value in (0, 1))))
+            if not whole or len(g.ifs) != 1 or not isinstance(g.target, ast.Name):
+                continue
+            c0 = K.expand(fi, g.ifs[0])
+            if not (isinstance(c0, ast.Compare) and len(c0.ops) == 1 and isinstance(c0.ops[0], ast.NotEq) and any(isinstance(x, ast.Attribute) and x.attr == "shape" and isinstance(x.value, ast.Name) and x.value.id == g.target.id for x in ast.walk(c0))):
+                continue
+            recorded = {n.targets[0].id}
+            for t2 in cfg.find("test"):
+                if not any(cfg.dominates(t2, rz) for rz in raises):
+                    continue
+                if not (K.dep_names(fi, t2.ast) & recorded):
+                    continue
+                neg = isinstance(t2.ast, ast.Compare) and isinstance(t2.ast.ops[0], (ast.Is, ast.Eq)) or (isinstance(t2.ast, ast.UnaryOp) and isinstance(t2.ast.op, ast.Not))
+                side = [m for m, l in t2.succ if l == ("false" if neg else "true")]
+                if side and all(cfg.must_pass_through(m, cfg.exit, set(raises)) for m in side):
+                    ok = True
+                    why = "every shape that differs from the reference is collected from %s; MixedArrayShapes is raised whenever the collection is not empty" % K.src(g.iter)
     # the early `return` for short lists must not exceed one element
     for t in cfg.find("test"):
         s = K.src(t.ast)
